@@ -48,7 +48,9 @@ def _ensure(ctx, backend, data_key):
         _S["reg"].keep_results_of = {"query_bucket", "query_bucket_eventcount"}
     st = Store(backend, ctx.tmp)
     lo, hi = qlang.populate(st.ds, random.Random(data_key), 1_600_000_000_000_000)
-    _S.update(st=st, lo=lo, hi=hi, backend=backend, dump=dump_store(st.ds), key=(backend, data_key))
+    dump = dump_store(st.ds)
+    ends = sorted({t[1] + t[2] for _, evs in dump.values() for t in evs})
+    _S.update(st=st, lo=lo, hi=hi, backend=backend, dump=dump, key=(backend, data_key), ends=ends)
 
 
 def teardown(ctx):
@@ -88,10 +90,15 @@ def gen_case(rng, ctx):
         we = lo - rng.randrange(10**6, 10**9)
         ws = we - rng.randrange(0, 10**9)
         wcls = "before-data"
-    else:
+    elif r < 0.95:
         ws = lo + rng.randrange(span)
         we = ws + rng.choice([1, 999, 1000, 1500, 10**6 + 1])
         wcls = "sub-second"
+    else:
+        # the window starts a few hundred microseconds after an event ended (same millisecond or the next)
+        ws = rng.choice(_S["ends"]) + rng.choice([1, 100, 400, 700, 999, 1000, -1, -300])
+        we = ws + rng.choice([0, 500, 10**6, span])
+        wcls = "start-just-after-an-event-end"
     write = None
     if rng.random() < 0.1:
         # the store changes between two queries: nothing a query layer remembers may survive that
